@@ -103,6 +103,11 @@ pub fn unhex(s: &str) -> Vec<u8> { (0..s.len() / 2).map(|i| u8::from_str_radix(&
 
 /// strip memory addresses (`0x55c9…`) that some deserialisation errors print
 pub fn canon_msg(s: &str) -> String {
+    if s.contains("unprocessed call results") {
+        // the message prints a HashMap with `{:?}`: entry order is arbitrary (see C20); compare as a multiset of characters
+        let mut c: Vec<char> = s.chars().collect(); c.sort();
+        return c.into_iter().collect();
+    }
     let mut out = String::new();
     let b: Vec<char> = s.chars().collect();
     let mut i = 0;
